@@ -648,6 +648,9 @@ func (s *vSnap) monC14(err error) {
 	if err != nil || s.deleting {
 		return
 	}
+	if !sym.ConcreteBool(s.parallel) {
+		return // the property speaks about the Parallel policy only
+	}
 	created := map[int]bool{}
 	deleted := map[int]bool{}
 	updates := 0
